@@ -1,6 +1,6 @@
 (* C13 - Context lifecycle: usable only from entry to end of teardown, entered once. *)
 From Coq Require Import String List Arith.
-From Asphalt Require Import Ctx.ResModel Ctx.ResProofs Ctx.ResInv Ctx.ResHist Ctx.GuardTie Gen.Gen_guards Td.Lifecycle Gen.Gen_lifecycle.
+From Asphalt Require Import Ctx.ResModel Ctx.ResProofs Ctx.ResInv Ctx.ResHist Ctx.GuardTie Gen.Gen_guards Td.Lifecycle Gen.Gen_lifecycle Ctx.CtxBaseTie Gen.Gen_ctxbase.
 Import ListNotations.
 
 (* (T) the table of lifecycle states in which each guarded method is accepted, extracted from
@@ -86,3 +86,11 @@ Theorem C13_exit_statement_order :
   aexit_closing_before_stack = true /\ aexit_closed_in_finally = true /\ aexit_child_check_in_finally = true.
 Proof. exact exit_statement_order. Qed.
 Print Assumptions C13_exit_statement_order.
+
+(* Context.closed and the lifecycle guard as read from the source on this run: a context starts inactive, `closed`
+   is true exactly in the states closing and closed, and a guarded method called in a state it does not accept
+   raises RuntimeError naming that state *)
+Theorem C13_closed_and_guard_in_source :
+  ctx_starts_inactive = true /\ ctx_closed_iff_closing_or_closed = true /\ ctx_guard_raises_runtimeerror_per_state = true.
+Proof. exact closed_and_guard_source_shape. Qed.
+Print Assumptions C13_closed_and_guard_in_source.
